@@ -61,7 +61,7 @@ pub fn vattr(a: &VAttr, dw_fn: &str) -> String {
                     format!("{} = {}", k, v)
                 })
                 .collect();
-            format!("props({})", items.join(", "))
+            format!("props({})", join_list(&items, crate::fnv(items.join("|").as_bytes())))
         }
     }
 }
@@ -138,6 +138,15 @@ pub fn dw_fn_name(vi: usize, fi: usize) -> String {
     format!("dw_{}_{}", vi, fi)
 }
 
+/// `a, b` or - for some programs and positions - `a, b,`: a trailing comma is legal in every attribute list
+fn join_list(items: &[String], salt: u64) -> String {
+    let mut t = items.join(", ");
+    if !items.is_empty() && salt % 6 == 0 {
+        t.push(',');
+    }
+    t
+}
+
 pub struct EnumOpts<'a> {
     pub name: &'a str,
     pub derive_prefix: &'a str, // "strum::" or "strum_x::" ...
@@ -151,6 +160,7 @@ pub struct EnumOpts<'a> {
 /// The enum definition (with derives, attributes, default_with functions and the BASE const).
 pub fn enum_def(e: &EnumSpec, o: &EnumOpts) -> String {
     let mut s = String::new();
+    let salt = crate::fnv(e.name.as_bytes());
     let g = generics(e, o.t_bound, o.t_inst);
     if let Some(b) = e.base_const {
         let _ = writeln!(s, "pub const BASE: {} = {};", e.repr_int.as_deref().unwrap_or("isize"), b);
@@ -187,7 +197,7 @@ pub fn enum_def(e: &EnumSpec, o: &EnumOpts) -> String {
         ds.push(format!("{}{}", o.derive_prefix, d));
     }
     if !ds.is_empty() {
-        let _ = writeln!(s, "#[derive({})]", ds.join(", "));
+        let _ = writeln!(s, "#[derive({})]", join_list(&ds, salt ^ 0x11));
     }
     noise(&mut s, 1);
     if let Some(r) = &e.repr {
@@ -199,7 +209,7 @@ pub fn enum_def(e: &EnumSpec, o: &EnumOpts) -> String {
     noise(&mut s, 2);
     for (gi, grp) in e.groups.iter().enumerate() {
         let items: Vec<String> = grp.iter().map(|a| eattr(a, o.err_ty, o.err_fn)).collect();
-        let _ = writeln!(s, "#[strum({})]", items.join(", "));
+        let _ = writeln!(s, "#[strum({})]", join_list(&items, salt.wrapping_add(gi as u64 * 7)));
         if gi == 0 {
             noise(&mut s, 5); // between the first and the second #[strum(..)] attribute
         }
@@ -219,7 +229,7 @@ pub fn enum_def(e: &EnumSpec, o: &EnumOpts) -> String {
             let _ = writeln!(s, "#[strum_discriminants(vis({}))]", v);
         }
         if !d.derives.is_empty() {
-            let _ = writeln!(s, "#[strum_discriminants(derive({}))]", d.derives.join(", "));
+            let _ = writeln!(s, "#[strum_discriminants(derive({}))]", join_list(&d.derives, salt ^ 0x33));
         }
         for p in &d.passthrough {
             let _ = writeln!(s, "#[strum_discriminants({})]", p);
@@ -253,7 +263,7 @@ pub fn enum_def(e: &EnumSpec, o: &EnumOpts) -> String {
                 }
             }
             let items: Vec<String> = grp.iter().map(|a| vattr(a, &dw_fn_name(vi, 0))).collect();
-            let _ = writeln!(s, "    #[strum({})]", items.join(", "));
+            let _ = writeln!(s, "    #[strum({})]", join_list(&items, salt.wrapping_add(1000 + vi as u64 * 31 + gi as u64)));
         }
         if at >= v.groups.len() {
             for n in &v.noise {
@@ -441,6 +451,9 @@ pub enum Twin {
 fn t_bound_for(e: &EnumSpec) -> &'static str {
     if e.derives("EnumString") || e.derives("EnumIter") || e.derives("FromRepr") {
         "::core::default::Default"
+    } else if e.where_clause && (e.derives("EnumIs") || e.derives("EnumTryAs")) {
+        // a bound that every impl for the enum has to repeat
+        "::core::clone::Clone"
     } else {
         ""
     }
@@ -593,7 +606,7 @@ pub fn module_string(e: &EnumSpec, o: &ModOpts) -> ModuleSrc {
     let clone: &[&str] = &["Clone"];
     // how the custom error function is named: plain, multi-segment path, associated function reached through
     // `Self`, generic function with a turbofish
-    let err_form = if e.parse_err() { e.hash64() % 4 } else { 9 };
+    let err_form = if e.parse_err() { e.hash64() % 5 } else { 9 };
     let err_path = err_form == 0 || err_form == 3;
     let emit_one = |e: &EnumSpec, name: &str, src: &mut Src, mark_def: bool| {
         let mut eo = enum_opts(e, name);
@@ -604,6 +617,8 @@ pub fn module_string(e: &EnumSpec, o: &ModOpts) -> ModuleSrc {
             0 => eo.err_fn = "errs::mk_err",
             2 => eo.err_fn = "Self::mk_err_assoc",
             3 => eo.err_fn = "errs::mk_err_g::<u8>",
+            // generic over the argument type: cannot be coerced to one `fn(&str) -> _` pointer type
+            4 => eo.err_fn = "mk_err_any",
             _ => {}
         }
         if mark_def {
@@ -633,6 +648,7 @@ pub fn module_string(e: &EnumSpec, o: &ModOpts) -> ModuleSrc {
             src.push("pub fn mk_err(s: &str) -> vrt::MyErr { vrt::MyErr(format!(\"DECOY:{}\", s)) }");
         } else {
             src.push("pub fn mk_err(s: &str) -> vrt::MyErr { ERR_CNT.fetch_add(1, ::std::sync::atomic::Ordering::SeqCst); vrt::MyErr(s.to_string()) }");
+            src.push("pub fn mk_err_any<S: ::core::convert::AsRef<str>>(s: S) -> vrt::MyErr { mk_err(s.as_ref()) }");
         }
     }
     let name = e.type_name();
@@ -668,6 +684,9 @@ pub fn module_string(e: &EnumSpec, o: &ModOpts) -> ModuleSrc {
             src.push("pub mod tw {");
             if e.parse_err() {
                 src.push("pub use super::{mk_err, ERR_CNT};");
+                if !err_path {
+                    src.push("pub use super::mk_err_any;");
+                }
                 if err_path {
                     src.push("pub use super::errs;");
                 }
